@@ -148,6 +148,82 @@ fn capitalized_idents(q: &[QTok], out: &mut Vec<String>, bound: &mut BTreeSet<St
     }
 }
 
+/// C01.fromimpl: with generate_from_impls a `impl From<T> for Choice` is emitted per alternative — two impls for one `T`
+/// conflict (E0119), so alternatives whose Rust type occurs more than once get none. The block guarded by
+/// `config.generate_from_impls` in generate_choice is evaluated on alternative lists with repeated types.
+pub fn from_impls(m: &Model, ctx: &mut Ctx, rule: &str) {
+    use crate::eval::{new_map, Env, Evaluator, Val};
+    use std::collections::BTreeMap as Map;
+    let Some(f) = m.fns.iter().find(|f| f.name == "generate_choice" && f.self_ty.as_deref() == Some("Rasn")) else {
+        ctx.fail_closed(rule, "anchor not found: Rasn::generate_choice");
+        return;
+    };
+    struct F { out: Vec<syn::ExprIf> }
+    impl model::DeepCb for F {
+        fn expr(&mut self, e: &syn::Expr) {
+            if let syn::Expr::If(i) = e {
+                if tok(&i.cond).contains("generate_from_impls") {
+                    self.out.push(i.clone());
+                }
+            }
+        }
+    }
+    let mut c = F { out: vec![] };
+    model::deep_walk_block(&f.block, &mut c);
+    let Some(iff) = c.out.first() else {
+        ctx.fail_closed(rule, "generate_choice: no block guarded by config.generate_from_impls");
+        return;
+    };
+    ctx.func(&f.key);
+    let consts = const_resolver(m);
+    for types in [vec!["A"], vec!["A", "B"], vec!["A", "A"], vec!["A", "A", "B"], vec!["A", "B", "A"], vec!["A", "A", "A"], vec!["A", "B", "A", "B", "C"]] {
+        let key = format!("alternative-types:{}", types.join(","));
+        ctx.oblige(rule, &key, true);
+        let log = std::cell::RefCell::new(Vec::<String>::new());
+        let hook = |_: &Evaluator, name: &str, a: &[Val]| -> Option<Result<Val, String>> {
+            match name {
+                "BTreeMap::new" | "HashMap::new" | "BTreeMap::default" | "HashMap::default" => Some(Ok(new_map())),
+                ".constraints_and_type_name" => match a.get(1) {
+                    Some(Val::Str(t)) => Some(Ok(Val::Ctor("Ok".into(), vec![Val::Tuple(vec![Val::Unit, Val::Sym(t.clone())])], Map::new()))),
+                    _ => None,
+                },
+                ".to_rust_enum_identifier" => match a.get(1) { Some(Val::Str(n)) => Some(Ok(Val::Sym(n.clone()))), _ => None },
+                "choice_from_impl_template" => {
+                    log.borrow_mut().push(match a.get(2) { Some(Val::Sym(t)) | Some(Val::Str(t)) => t.clone(), o => format!("{:?}", o.map(|x| x.show())) });
+                    Some(Ok(Val::Sym("from_impl".into())))
+                }
+                "std::iter::once" | "iter::once" | "once" => Some(Ok(Val::List(a.to_vec()))),
+                _ => None,
+            }
+        };
+        let ev = Evaluator { consts: &consts, call_hook: &hook, inline: None };
+        let mut ch = Map::new();
+        ch.insert("options".to_string(), Val::List(types.iter().enumerate().map(|(i, t)| {
+            let mut o = Map::new();
+            o.insert("name".to_string(), Val::Str(format!("alt{}", i)));
+            o.insert("ty".to_string(), Val::Str(t.to_string()));
+            o.insert("is_recursive".to_string(), Val::Bool(false));
+            Val::Ctor("ChoiceOption".into(), vec![], o)
+        }).collect()));
+        let mut env = Env::new();
+        env.insert("choice".into(), Val::Ctor("Choice".into(), vec![], ch));
+        env.insert("name".into(), Val::Sym("Name".into()));
+        env.insert("choice_str".into(), Val::Sym("choice_str".into()));
+        env.insert("self".into(), Val::Opaque("self".into()));
+        match ev.eval_block(&iff.then_branch, &mut env) {
+            Ok(_) => {
+                let got = log.borrow().clone();
+                let want: Vec<String> = types.iter().filter(|t| types.iter().filter(|u| u == t).count() == 1).map(|t| t.to_string()).collect();
+                if got != want {
+                    ctx.violate(rule, "from-impl-per-unique-type", &f.file, crate::rules::util::span_line(iff),
+                        &format!("alternatives of Rust types {:?}: From impls are emitted for {:?}; exactly the types that occur once ({:?}) may get one — two `impl From<{}>` conflict (E0119), a missing one changes the API", types, got, want, types[0]));
+                }
+            }
+            Err(e) => ctx.fail_closed(rule, &format!("[{}]: {}", key, e)),
+        }
+    }
+}
+
 pub fn run(m: &Model, ctx: &mut Ctx) {
     ctx.explanation = "Necessary conditions only. C01.vocab: every capitalised free identifier in type or expression position of every quote! template of the rasn generator is nameable inside the emitted module: exported by the pinned rasn::prelude (parsed from the rasn sources that /repo/Cargo.lock pins), a fixed import of the module wrapper, part of the Rust prelude, or bound locally in the template. \
 C01.attrs: every key the generator emits inside #[rasn(..)] is accepted by the pinned rasn-derive-impl for the position it is emitted at (container / field / variant): writer's and reader's tables agree. \
@@ -307,6 +383,7 @@ C01.defined: wherever constraints_and_type_name renders a component with the `<P
     crate::rules::c02::defname(m, ctx, "C01.defname");
     // the type of a component and the type of its DEFAULT function / value are chosen by two selectors (shared with C06.agree)
     crate::rules::c06::agree(m, ctx, "C01.agree");
+    from_impls(m, ctx, "C01.fromimpl");
 }
 
 /// C01.defined: a component's type is rendered by `constraints_and_type_name`, which names an anonymous inner type
